@@ -108,6 +108,9 @@ class ParallelModel(ConfigurableModel):
                 except Exception as exc:
                     results[step_name] = f"Error: {exc}"
 
+        # Report results in declared step order, independent of which step finished first
+        results = {name: results[name] for name, _ in self.step_configs}
+
         # Apply aggregator if provided
         if self.aggregator:
             # Convert dictionary of results to a list of values for the aggregator
